@@ -431,6 +431,11 @@ type knownFinding struct {
 	Status    string `json:"status"` // known | fixed
 	Commit    string `json:"commit,omitempty"`
 	Text      string `json:"text"`
+	// Replay, for a known finding: a plan file (relative to the /verif root)
+	// that reproduces it. When the exploration of a run does not come across
+	// the finding, the plan is executed so that the finding is still shown
+	// for what it is on the tree under test.
+	Replay string `json:"replay,omitempty"`
 }
 
 func loadKnown(root string) []knownFinding {
@@ -758,6 +763,37 @@ func master() int {
 		violSumm = append(violSumm, summ)
 	}
 
+	knownShown := 0
+	// known findings the exploration did not come across: execute their
+	// recorded plans (a finding that is rare under random exploration is still
+	// a property of the tree)
+	for _, k := range known {
+		if k.Status != "known" || k.Property != *fProp || k.Replay == "" {
+			continue
+		}
+		if _, hit := bySig[k.Signature]; hit {
+			continue
+		}
+		plan := filepath.Join(*fVerif, k.Replay)
+		if mp, err := ReadPlan(plan); err != nil || mp == nil {
+			continue
+		} else if *fSimName != "" && mp.Sim != *fSimName {
+			continue
+		}
+		var b bytes.Buffer
+		c := exec.Command(selfExe(), "-vmode=replay", "-plan="+plan, "-verif="+*fVerif)
+		c.Stdout, c.Stderr = &b, &b
+		_ = c.Run()
+		if strings.Contains(b.String(), "sig="+k.Signature+" ") {
+			fmt.Printf("KNOWN-FINDING: property=%s %s (signature %s, not met by this run's exploration; its recorded plan %s reproduces it)\n", k.Property, k.Text, k.Signature, plan)
+			violSumm = append(violSumm, map[string]any{"signature": k.Signature, "message": firstLine(k.Text), "occurrences": 0,
+				"replay": plan, "replay_reproduces": true, "known_finding": true})
+			knownShown++
+		} else {
+			fmt.Printf("note: the recorded plan %s of known finding %s no longer reproduces it on this tree\n", plan, k.Signature)
+		}
+	}
+
 	wall := time.Since(t0).Seconds()
 	// evidence
 	level := "exploration"
@@ -835,7 +871,7 @@ func master() int {
 		infra = true
 	}
 	fmt.Printf("summary property=%s runs=%d nontrivial=%d distinct=%d sim_seconds=%.0f violations=%d known=%d wall=%.1fs\n",
-		*fProp, runs, effRuns, len(hashes), simSecs, newViol, len(sigs)-newViol, wall)
+		*fProp, runs, effRuns, len(hashes), simSecs, newViol, len(sigs)-newViol+knownShown, wall)
 	for _, k := range SortedKeys(stats) {
 		if strings.HasPrefix(k, "fault.") || strings.HasPrefix(k, "probe.") {
 			fmt.Printf("  %s=%d\n", k, stats[k])
